@@ -6,3 +6,6 @@ import TinsModel.Props.C01
 #print axioms Tins.Props.C01.entry_scan_complete
 #print axioms Tins.Props.C01.entry_points_covered
 #print axioms Tins.Props.C01.wire_modelled_safe
+#print axioms Tins.Props.C01.raw_scan_complete
+#print axioms Tins.Props.C01.raw_sites_covered
+#print axioms Tins.Props.C01.raw_guards_present
